@@ -75,6 +75,7 @@ void harness(void) {
   PSocket *X = NULL;
   long long clock0 = vs.clock;
   vs_begin_call(FAULTS, VS_M_EINTR);
+  vs.nb_call = !blocking && OP != 5;      /* (io_condition_wait is the documented way to wait on a non-blocking socket) */
   long r;
 #if OP == 1
   r = p_socket_receive(S, (pchar *) buf, VS_CAP, &err);
